@@ -127,12 +127,16 @@ class Head:
         self.ids = None
         self.eps = None               # scripted standard-normal draws per table row (Box)
         self.calls = 0
+        self.real = None
 
     def __call__(self, latent, *a, **k):
         self.calls += 1
         Head.current = self
         out = self.table[self.ids]
-        # keep the autograd graph of the real head alive for learn(): value unchanged
+        if self.real is not None and torch.is_grad_enabled():
+            # keep the autograd graph of the real head alive for learn(): r - r = 0 exactly, the value is unchanged
+            r = self.real(latent)
+            out = out + (r - r.detach())
         return out
 
 
@@ -162,6 +166,7 @@ def instrument(actor, head=None):
 
     actor.extract_features = extract
     if head is not None:
+        head.real = actor.head_net.wrapped.forward
         actor.head_net.wrapped.forward = head
     return actor
 
@@ -246,14 +251,22 @@ def make_ppo(key, squash=False, bounds="unit", seed=0, batch_size=64, std_init=0
     from agilerl.algorithms.ppo import PPO
 
     seed_all(seed)
-    kw = dict(net_config=_net(squash), batch_size=batch_size, update_epochs=1, lr=1e-3, action_std_init=std_init)
+    kw = dict(net_config=_net(squash), batch_size=batch_size, update_epochs=1, lr=1e-3)
     try:
         ag = PPO(OBS_SPACE, space_of(key, squash, bounds), share_encoders=True, **kw)
         INFO["ppo_share_encoders"] = True
     except AssertionError:
         ag = PPO(OBS_SPACE, space_of(key, squash, bounds), share_encoders=False, **kw)
         INFO["ppo_share_encoders"] = False
+    set_log_std([ag.actor], std_init)
     return ag
+
+
+def set_log_std(actors, value):
+    """PPO / IPPO only accept action_std_init >= 0; other initialisations are written into the parameter."""
+    for ac in actors:
+        if isinstance(getattr(ac.head_net, "log_std", None), torch.Tensor):
+            ac.head_net.log_std.data.fill_(float(value))
 
 
 def make_ippo(key, squash=False, bounds="unit", seed=0, batch_size=64, std_init=0.0):
@@ -261,8 +274,21 @@ def make_ippo(key, squash=False, bounds="unit", seed=0, batch_size=64, std_init=
 
     seed_all(seed)
     sp = space_of(key, squash, bounds)
-    return IPPO([OBS_SPACE] * 3, [sp] * 3, agent_ids=list(IPPO_IDS), net_config=_net(squash), batch_size=batch_size,
-                update_epochs=1, lr=1e-3, action_std_init=std_init)
+    kw = dict(agent_ids=list(IPPO_IDS), batch_size=batch_size, update_epochs=1, lr=1e-3)
+    if not squash:
+        ag = IPPO([OBS_SPACE] * 3, [sp] * 3, net_config=_net(False), **kw)
+        set_log_std(ag.actors, std_init)
+        return ag
+    # IPPO(net_config={"squash_output": True}) hands the flag to ValueNetwork as well (TypeError): squashed policies
+    # can only be given as explicit networks
+    from agilerl.networks.actors import StochasticActor
+    from agilerl.networks.value_networks import ValueNetwork
+    actors = [StochasticActor(OBS_SPACE, sp, squash_output=True, **_net(False)) for _ in range(2)]
+    critics = [ValueNetwork(OBS_SPACE, **_net(False)) for _ in range(2)]
+    ag = IPPO([OBS_SPACE] * 3, [sp] * 3, actor_networks=actors, critic_networks=critics, **kw)
+    assert all(a.squash_output and a.head_net.squash_output for a in ag.actors), "squash_output lost when IPPO copied the networks"
+    set_log_std(ag.actors, std_init)
+    return ag
 
 
 # ======================================================================================= row checks
@@ -331,7 +357,10 @@ def check_box_row(c, a, lp, ent, *, u_want, qn, squash, path, check_point=True):
             want -= tanh_corr(want_a)
             clause = "TanhCorrection"
         lpf = float(lp)
-        if not (abs(lpf - want) <= TOL_BOX * (1.0 + abs(want))):
+        tol = TOL_BOX * (1.0 + abs(want))
+        if squash:      # conditioning of log(1 - a^2 + eps) in float32 (a^2 carries a relative error of 2^-23)
+            tol += float(sum(3.0 * 2.0 ** -23 / (1.0 - x * x + EPS_SQUASH) for x in want_a))
+        if not (abs(lpf - want) <= tol):
             bad.append((clause, f"log_prob reported {lpf:.9g}, specification -{qn}/128 - {c['kk']} ln2 - {d}/2 ln(2pi)"
                                 f"{' - sum log(1-a^2+1e-6)' if squash else ''} = {want:.9g} at action {a.tolist()}"))
         if ent is not None and not squash:
@@ -668,11 +697,12 @@ class BoxKernel:
             g.setdefault(tuple(c["ks"]), []).append(c)
         return g
 
-    def _eligible(self, cases):
+    def _ok(self, c):
         # squashed actors: stored actions tanh(u) with |u| <= 1.5 only (atanh well conditioned)
-        if not self.squash:
-            return cases
-        return [c for c in cases if max(abs(x) for x in box_point(c)) <= 1.5]
+        return (not self.squash) or max(abs(x) for x in box_point(c)) <= 1.5
+
+    def _eligible(self, cases):
+        return [c for c in cases if self._ok(c)]
 
     def _set(self, actors, heads, ks, part, rot):
         for ac in actors:
@@ -714,7 +744,7 @@ class BoxKernel:
                     self.fail("actor", "sample", check_box_row(c, a[i], lp[i], ent[i], u_want=pts[i][0], qn=pts[i][1], squash=self.squash,
                                                                path="sample"), c, batch=len(part), row=i)
                 # stored actions: the case's own grid point, against the distribution of this forward pass
-                el = [i for i, c in enumerate(part) if c in self._eligible([c])]
+                el = [i for i, c in enumerate(part) if self._ok(c)]
                 stored = np.array([np.tanh(box_point(c)) if self.squash else box_point(c) for c in part], dtype=np.float32)
                 try:
                     with torch.no_grad():
@@ -767,7 +797,7 @@ class BoxKernel:
                     self.fail("PPO", "evaluate_actions", [("Shape", f"log_prob {lp2.shape} for {len(part)} stored actions of shape {a.shape}")], part[0])
                     continue
                 for i, c in enumerate(part):
-                    if self.squash and c not in self._eligible([c]):
+                    if not self._ok(c):
                         continue
                     self.fail("PPO", "eval", check_box_row(c, stored[i], lp2[i], None, u_want=box_point(c), qn=c["qn"], squash=self.squash,
                                                            path="eval"), c, batch=len(part), row=i)
@@ -899,7 +929,7 @@ class History:
     """Recorder of one trace."""
 
     def __init__(self, cfg, squash):
-        self.cfg = dict(cfg)
+        self.cfg = dict(cfg, w0=0)
         self.ev = []
         self.wids, self.aids = Ids(), Ids()
         self.vids = Ids(1e-4 if squash else 1e-5)
